@@ -44,6 +44,9 @@ pub fn build(case: &Case, ctx: &mut CaseCtx) -> Built {
     let gas = |s: usize| -> Option<u64> {
         if (s + case.variant as usize) % 3 == 0 {
             None
+        } else if s % 5 == 4 {
+            // exactly the contract-wide default (when one is configured): an entry like any other
+            Some(500_000)
         } else {
             Some(100_000 + s as u64)
         }
